@@ -88,6 +88,32 @@ def ip_canon(kind, s):
     return "%s:%x/%d" % (kind, v, n)
 
 
+def ip_text_canon(kind, s):
+    """the canonical TEXT the normaliser is documented to produce for an address / CIDR string
+    (own masking; platform inet_* for parsing and printing); the string itself if it is none"""
+    if "\x00" in s:
+        return s
+    ip, sl, pfx = s.partition("/")
+    bits = 32 if kind == "ip4" else 128
+    try:
+        raw = socket.inet_aton(ip) if kind == "ip4" else socket.inet_pton(socket.AF_INET6, ip)
+    except (OSError, ValueError):
+        return s
+    n = bits
+    if sl:
+        try:
+            n = int(pfx)
+        except ValueError:
+            return s
+        if n < 0 or n > bits:
+            return s
+    v = int.from_bytes(raw, "big")
+    v = (v >> (bits - n)) << (bits - n) if n < bits else v
+    raw = v.to_bytes(bits // 8, "big")
+    txt = socket.inet_ntoa(raw) if kind == "ip4" else socket.inet_ntop(socket.AF_INET6, raw)
+    return txt if n == bits else "%s/%d" % (txt, n)
+
+
 def canon_value(kind, v):
     if kind is None or v[0] != "str":
         return v
@@ -107,7 +133,16 @@ def net(s):
     try:
         return ipaddress.ip_network(s, strict=False)
     except ValueError:
-        return None
+        pass
+    # spellings the platform parser accepts and ipaddress does not (leading zeros, short forms)
+    for kind in ("ip4", "ip6"):
+        t = ip_text_canon(kind, s)
+        if t != s:
+            try:
+                return ipaddress.ip_network(t, strict=False)
+            except ValueError:
+                return None
+    return None
 
 
 def test(op, v, d, kind):
